@@ -43,6 +43,21 @@ ATOMS = {
 NEWLINE_ATOMS = ("lf", "crlf")
 # sites whose source can contain a line break (error text handed over by the connection attempt)
 MULTILINE_SITES = ("connect_failed", "connect_eager_failed")
+# size classes of the reflected text: 0 = short, 1 = more than 16 KiB, 2 = more than 64 KiB (letters in front of the payload)
+SIZE_FILL = {0: 0, 1: 17000, 2: 70000}
+
+
+def max_size(site: str) -> int:
+    """Largest size class the site's source can carry and still be reflected into an HTML page."""
+    _protos, _st, _srck, reflects, path = SITES[site]
+    if not reflects or path == "connect" or site == "resp_h2_bad_status":
+        return 0
+    return 1 if site == "req_bad_scheme" else 2  # an h2 header block is limited to 64 KiB
+
+
+def size_ok(site: str, proto: str, size: int) -> bool:
+    # class 2 only towards HTTP/1 clients: the h2 client peer of the harness does not reopen its flow-control window
+    return size <= max_size(site) and (size < 2 or proto == "h1")
 ATOMS_QUICK = ("tag", "cmt", "copy", "amp", "quot", "apos", "uni", "lf", "crlf")  # the random driver uses all atoms
 
 # site -> protos, status, source kind, reflects the source, path (see ErrorPage.tla)
@@ -391,11 +406,12 @@ def h2_read(peer, raw: bytes):
 
 def run_scenario(sc):
     site, proto, atoms = sc["site"], sc["proto"], list(sc["atoms"])
-    pre, post = sc.get("pre", ""), sc.get("post", "")
+    size = int(sc.get("size", 0))
+    pre, post = "Q" * SIZE_FILL[size] + sc.get("pre", ""), sc.get("post", "")
     srck = SITES[site][2]
     src = [c for a in atoms for c in ATOMS[a][1]]
     trace = [{"k": "input", "site": site, "proto": proto, "srck": srck, "src": src,
-              "lines": 1 + sum(1 for a in atoms if a in NEWLINE_ATOMS)}]
+              "lines": 1 + sum(1 for a in atoms if a in NEWLINE_ATOMS), "size": size}]
     runs = []
     for neutral in (False, True):
         text = pre + payload_text(atoms, neutral) + post
@@ -446,7 +462,8 @@ class Check(core.PropertyCheck):
     MODEL = "ErrorPage"
     MON = "Mon_ErrorPage"
     REQUIRED_WITNESSES = ("html_page_h1", "html_page_h2", "reflected", "not_reflected", "escaped_lt", "escaped_amp",
-                          "escaped_quot", "escaped_apos", "h1_length_exact", "h1_closed", "plain_page", "multiline_escaped_lt")
+                          "escaped_quot", "escaped_apos", "h1_length_exact", "h1_closed", "plain_page", "multiline_escaped_lt",
+                          "long16_h1_exact", "long64_h1_exact", "long16_h2_page")
     REQUIRED_ACTIONS = ("Request", "H1ReadHeadersError", "StreamError", "H1SendError", "H2SendError",
                         "ConnectEagerFail", "Finish")
     ASSUMPTIONS = (
@@ -466,7 +483,7 @@ class Check(core.PropertyCheck):
 
     def _sites(self):
         return {k: {"protos": frozenset(v[0]), "status": v[1], "srck": v[2], "reflects": v[3], "path": v[4],
-                    "multiline": k in MULTILINE_SITES} for k, v in SITES.items()}
+                    "multiline": k in MULTILINE_SITES, "maxsize": max_size(k)} for k, v in SITES.items()}
 
     def _atoms(self, names):
         return {a: {"cls": tuple(ATOMS[a][1]), "markup": tuple(ATOMS[a][2]), "nl": a in NEWLINE_ATOMS} for a in names}
@@ -521,14 +538,14 @@ class Check(core.PropertyCheck):
         for b in g.edge_cover(ctx.rng, max_len=8, tail=6):
             if len(b) < 2 or b[1][0] != "Request":
                 continue
-            site, proto, atoms = b[1][1]
+            site, proto, atoms, size = b[1][1]
             pred = core.predicted_events(b)
             if not pred or pred[-1].get("k") != "end":
                 pred = None
             pre, post = (("", ""), ("ab", ""), ("", "cd"), ("ab", "cd"))[n % 4] if not ctx.quick else ("", "")
             n += 1
-            yield core.Scenario({"site": site, "proto": proto, "atoms": list(atoms), "pre": pre, "post": post},
-                                predicted=pred, source="model")
+            yield core.Scenario({"site": site, "proto": proto, "atoms": list(atoms), "pre": pre, "post": post,
+                                 "size": int(size)}, predicted=pred, source="model")
         # beyond the model: longer payloads, all atoms, surrounding text, option variations
         rng = random.Random(ctx.seed + 12)
         names = list(ATOMS)
@@ -542,6 +559,8 @@ class Check(core.PropertyCheck):
             elif rng.random() < 0.5:  # multi-line error text: a line break somewhere, markup before and after it
                 atoms.insert(rng.randrange(len(atoms) + 1), rng.choice(NEWLINE_ATOMS))
             sc = {"site": site, "proto": proto, "atoms": atoms, "pre": rng.choice(fill), "post": rng.choice(fill)}
+            if rng.random() < 0.15:  # long reflected text
+                sc["size"] = rng.choice([z for z in (1, 2) if size_ok(site, proto, z)] or [0])
             if rng.random() < 0.2 and site not in ("req_bad_header_name", "resp_bad_header_name"):
                 sc["opts"] = {"validate_inbound_headers": False}
             yield core.Scenario(sc, source="random")
